@@ -418,6 +418,15 @@ UnaryT(S, h, f, mode, d, lo, hi) ==
                    ELSE <<"un", f, S.heap[t.cells[k]]>>]
     IN Deliver(S, t.shape, t.ord, vals, mode, d, h, "", mode = "reuse" /\ d = h)
 
+(* fused multiply-add: Y := A * X + Y (X a tensor or the scalar K(x)); returns Y *)
+FMAT(S, a, form, x, y) ==
+    LET ta == S.live[a] ty == S.live[y]
+        xv(k) == IF form = "T" THEN S.heap[S.live[x].cells[k]] ELSE K(x)
+    IN IF ty.shape # ta.shape \/ (form = "T" /\ S.live[x].shape # ta.shape) THEN Free(S)
+       ELSE Out(WriteCells(S, ty.cells, [k \in 1..Len(ty.cells) |->
+                   <<"bin", "add", <<"bin", "mul", S.heap[ta.cells[k]], xv(k)>>, S.heap[ty.cells[k]]>>]),
+                Res("ok", TRUE, y, <<>>, <<>>))
+
 (***************************************************************************)
 (* Masked tensors                                                          *)
 (***************************************************************************)
@@ -722,6 +731,7 @@ Apply(S, op) ==
       [] op.k = "Filled"      -> FilledT(S, op.h, IF op.a[1] = 0 THEN <<"fill">> ELSE K(op.a[1]))
       [] op.k = "MaskInspect" -> MaskInspectT(S, op.h)
       [] op.k = "RoundTrip"   -> RoundTripT(S, op.h, op.a[1])
+      [] op.k = "FMA"         -> FMAT(S, op.h, op.a[1], op.a[2], op.a[3])
       [] op.k = "Reduce"      -> ReduceT(S, op.h, op.a[1], op.a[2])
       [] op.k = "Arg"         -> ArgT(S, op.h, op.a[1], op.a[2])
       [] op.k = "Product"     -> ProductT(S, op.a[1], op.h, op.a[2], op.a[3], op.a[4], op.a[5], op.a[6])
